@@ -67,10 +67,12 @@ def gen_case(g, prop):
             elif files:
                 f = g.choice(files); pats.append(g.choice([f[-1], '**/' + f[-1], '{INP}/' + '/'.join(f), '*' + f[-1][-6:], f[-1].upper() if g.random() < 0.2 else f[-1]]))
     hidden = []
-    if prop in ('C13', 'C14', 'C15', 'C17') and g.random() < 0.3:
+    if prop in ('C13', 'C14', 'C15', 'C17', 'C18') and g.random() < 0.3:
         # symbolic links to directories outside the input tree: documented like directories when input.follow_symlinks is on,
         # otherwise as if they were not there
-        st['follow'] = g.random() < 0.4
+        # (C18: never followed — with the output directory equal to or above the input, pages of a followed link would be written THROUGH the
+        # link; what is there to see for C18 is that links that are not followed leave no trace, on disk or on stdout)
+        st['follow'] = g.random() < 0.4 and prop != 'C18'
         dirs = [([], children)]
         def alld(ch, rel):
             for c in ch:
